@@ -133,14 +133,17 @@ def project(pas, sc):
     return out
 
 
-def query_all(nn, pas, cfg):
+def query_all(nn, pas, cfg, implicit=False):
+    """implicit: no set_context by the caller; get_nearest_particles has to
+    switch the (source, destination) pair itself."""
     from cyarray.api import UIntArray
     res = []
     nbrs = UIntArray()
     na = len(pas)
     for d in range(na):
         for s in range(na):
-            nn.set_context(s, d)
+            if not implicit or (cfg.get('cache') and cfg.get('fill')):
+                nn.set_context(s, d)
             if cfg.get('cache') and cfg.get('fill'):
                 nn.cache[d * na + s].find_all_neighbors()
             for i in range(pas[d].get_number_of_particles()):
@@ -214,12 +217,13 @@ def run_scenario(sc, cfg, reorder):
     nn = cls(dim=sc['dim'], particles=pas, radius_scale=float(sc['rs']),
              cache=bool(cfg.get('cache')), **kw)
     out = []
+    imp = bool(sc.get('implicit_ctx'))
     for k, st in enumerate(steps):
         if k > 0:
             mutate(pas, steps[k - 1], st, sc)
             nn.update_domain()
             nn.update()
-        rec = dict(step=k, arrays=project(pas, sc), results=query_all(nn, pas, cfg))
+        rec = dict(step=k, arrays=project(pas, sc), results=query_all(nn, pas, cfg, imp))
         if reorder:
             via = bool(sc.get('via_solver'))
             rec['reorder'] = reorder_all(nn, pas, sc, via)
@@ -228,7 +232,7 @@ def run_scenario(sc, cfg, reorder):
                 nn.update_domain()
                 nn.update()
             rec['arrays_after'] = project(pas, sc)
-            rec['results_after'] = query_all(nn, pas, cfg)
+            rec['results_after'] = query_all(nn, pas, cfg, imp)
         out.append(rec)
     return out
 
